@@ -83,6 +83,7 @@ pub fn run(args: &Args) {
     rep.add("cells", cells_done);
     expref_return_table(&mut rep, args);
     error_propagation_table(&mut rep, args);
+    deregistration_table(&mut rep, args);
     // unknown inner call is reported, not the outer: arguments are evaluated first
     if args.shard == 0 {
         for (text, inner) in [("length(nofn(@))", "nofn"), ("nofn(nofn2(@))", "nofn2"), ("abs(x, nofn3(`1`))", "nofn3")] {
@@ -209,6 +210,11 @@ fn error_propagation_table(rep: &mut Report, args: &Args) {
             check_fails(rep, &format!("[{}, {}]", l, call), &doc, class, "multi-select-list");
             check_fails(rep, &format!("{{a: {}, b: {}}}", l, call), &doc, class, "multi-select-hash");
             check_fails(rep, &format!("{} | {}", l, call), &doc, class, "pipe");
+            // … and at the end of a chain whose earlier links yield null
+            check_fails(rep, &format!("{} | zz.{}", l, call), &doc, class, "pipe-into-chain");
+            check_fails(rep, &format!("{} | zz[0].{}", l, call), &doc, class, "pipe-into-chain");
+            check_fails(rep, &format!("({}).zz.yy.{}", l, call), &doc, class, "chain");
+            check_fails(rep, &format!("{} | (@ | {})", l, call), &doc, class, "nested-pipe");
             check_fails(rep, &format!("!{}", call), &doc, class, "not");
             check_fails(rep, &format!("not_null({}, {})", l, call), &doc, class, "argument");
         }
@@ -237,6 +243,69 @@ fn check_succeeds(rep: &mut Report, text: &str, doc: &Value, cell: &str) {
             "C06/call-evaluated-although-short-circuited",
             json!({"expression": text, "document": doc, "cell": cell, "got": format!("{:?}", other.map(|r| r.map(|v| v.to_string()).map_err(|e| e.to_string())))}),
         ),
+    }
+}
+
+/// Removing one built-in from a runtime removes exactly that one: it is then an unknown function,
+/// and each of the other 25 still answers a well-typed call with a value of its declared type.
+fn deregistration_table(rep: &mut Report, args: &Args) {
+    const VALID: [(&str, &str); 26] = [
+        ("abs", "abs(`-1`)"), ("avg", "avg(`[1, 2, 3]`)"), ("ceil", "ceil(`1.5`)"), ("contains", "contains('abc', 'b')"), ("ends_with", "ends_with('abc', 'c')"), ("floor", "floor(`1.5`)"),
+        ("join", "join('-', `[\"a\", \"b\"]`)"), ("keys", "keys(`{\"a\": 1}`)"), ("length", "length('abc')"), ("map", "map(&@, `[1]`)"), ("max", "max(`[1, 3, 2]`)"),
+        ("max_by", "max_by(`[{\"k\": 1}, {\"k\": 2}]`, &k)"), ("merge", "merge(`{\"a\": 1}`, `{\"b\": 2}`)"), ("min", "min(`[1, 3, 2]`)"), ("min_by", "min_by(`[{\"k\": 1}, {\"k\": 2}]`, &k)"),
+        ("not_null", "not_null(`null`, `1`)"), ("reverse", "reverse('abc')"), ("sort", "sort(`[3, 1, 2]`)"), ("sort_by", "sort_by(`[{\"k\": 2}, {\"k\": 1}]`, &k)"),
+        ("starts_with", "starts_with('abc', 'a')"), ("sum", "sum(`[1, 2]`)"), ("to_array", "to_array(`1`)"), ("to_number", "to_number('1')"), ("to_string", "to_string(`1`)"), ("type", "type(`1`)"),
+        ("values", "values(`{\"a\": 1}`)"),
+    ];
+    let fresh = jmespath::Runtime::new();
+    let mut full = jmespath::Runtime::new();
+    full.register_builtin_functions();
+    let truth: Vec<String> = VALID.iter().map(|(_, t)| format!("{:?}", full.compile(t).and_then(|e| e.search(())).map(|v| v.to_string()).map_err(|e| err_class(&e)))).collect();
+    for (vi, (victim, _)) in VALID.iter().enumerate() {
+        if vi as u64 % args.shards != args.shard {
+            continue;
+        }
+        for two in [false, true] {
+            let mut rt = jmespath::Runtime::new();
+            rt.register_builtin_functions();
+            let second = VALID[(vi * 7 + 3) % 26].0;
+            let removed = rt.deregister_function(victim).is_some();
+            let removed2 = if two && second != *victim { rt.deregister_function(second).is_some() } else { true };
+            rep.evaluations += 1;
+            if !removed || !removed2 || rt.deregister_function(victim).is_some() {
+                rep.violation("C06/deregistration-return-value", json!({"removed": victim, "first_call_returned_some": removed, "second_function": second}));
+            }
+            for (k, (name, text)) in VALID.iter().enumerate() {
+                rep.evaluations += 1;
+                let gone = name == victim || (two && *name == second);
+                let got = guarded(|| rt.compile(text).and_then(|e| e.search(())));
+                let shown = format!("{:?}", got.as_ref().map(|r| r.as_ref().map(|v| v.to_string()).map_err(|e| err_class(e))));
+                let ok = match &got {
+                    Ok(Err(e)) if gone => err_class(e) == "unknown-function" && e.reason.to_string().ends_with(&format!(" {}", name)),
+                    Ok(r) if !gone => format!("{:?}", r.as_ref().map(|v| v.to_string()).map_err(|e| err_class(e))) == truth[k],
+                    _ => false,
+                };
+                if ok {
+                    rep.count("deregistration_table_ok");
+                    rep.nontrivial(fnv(format!("dereg|{}|{}|{}", victim, name, two).as_bytes()));
+                } else {
+                    rep.violation(
+                        "C06/deregistering-one-function-changes-another",
+                        json!({"removed": if two { vec![*victim, second] } else { vec![*victim] }, "call": text, "expected": if gone { "unknown-function".to_string() } else { truth[k].clone() }, "got": shown}),
+                    );
+                }
+            }
+        }
+    }
+    // a runtime nothing was registered on knows none of them
+    if args.shard == 0 {
+        for (name, text) in VALID.iter() {
+            rep.evaluations += 1;
+            match guarded(|| fresh.compile(text).and_then(|e| e.search(()))) {
+                Ok(Err(e)) if err_class(&e) == "unknown-function" => rep.count("fresh_runtime_unknown"),
+                other => rep.violation("C06/unregistered-name-resolved", json!({"name": name, "got": format!("{:?}", other.map(|r| r.map(|v| v.to_string()).map_err(|e| e.to_string())))})),
+            }
+        }
     }
 }
 
